@@ -685,14 +685,21 @@ def kids(w):
 
 
 def wf_tree(w):
-    r = wf_node(w)
-    if r:
-        return r
-    for c in kids(w):
-        r = wf_tree(c)
+    """None if every node is WellFormed; LENIENT if the only broken rule (anywhere) is the fixed-only pack child of a
+    Pile; else the first other reason."""
+    reasons = []
+
+    def walk(x):
+        r = wf_node(x)
         if r:
-            return r
-    return None
+            reasons.append(r)
+        for c in kids(x):
+            walk(c)
+    walk(w)
+    if not reasons:
+        return None
+    other = [r for r in reasons if r != LENIENT]
+    return other[0] if other else LENIENT
 
 
 # ------------------------------------------------------------------ model wire encoding
